@@ -17,7 +17,7 @@ BIN = lambda: os.path.join(vlib.HARNESS, "target", "debug", "yx_seqapi")  # noqa
 TIERS = {
     # exhaustive program length, simulation program length, number of simulated programs per family/unit
     "quick": {"exh": {"text": 2, "array": 3, "map": 2, "xml": 3}, "sim_len": 6, "sim_walks": 40, "sim_n": 1200, "shape_n": 5000, "design": 3},
-    "thorough": {"exh": {"text": 3, "array": 4, "map": 3, "xml": 4}, "sim_len": 10, "sim_walks": 400, "sim_n": 20000, "shape_n": 200000, "design": 4},
+    "thorough": {"exh": {"text": 3, "array": 4, "map": 3, "xml": 4}, "sim_len": 10, "sim_walks": 200, "sim_n": 8000, "shape_n": 50000, "design": 4},
 }
 
 
